@@ -32,7 +32,8 @@ Inductive case :=
 | Earliest (iv nu63 funding o : Z)
 | CanonDenom (lo hi v : Z) (o : option bool)        (* None = no answer within the timeout (regression cases for the fixed zero-bound hang) *)
 | Wakeups (margin jitter tip : Z) (ts : list (Z * Z * Z)) (ws : list Z) (bf : option Z) (o : wres)
-| Shift (oc : bool) (iv served : Z) (pre : list stx) (ws : list Z) (o : dres (list stx)).
+| Shift (oc : bool) (iv served : Z) (pre : list stx) (ws : list Z) (o : dres (list stx))
+| Rebuild (oc : bool) (iv cap nu63 funding tip : Z) (pend ws ds : list Z) (o : outcome (Z * Z * option Z) unit).
 
 (** equalities *)
 Definition unit_eqb (_ _ : unit) := true.
@@ -88,6 +89,8 @@ Definition run_case (c : case) : bool :=
   | CanonDenom lo hi v o => option_eqb Bool.eqb (is_canonical_within_opt v lo hi) o
   | Wakeups m j tip ts ws _ o => wres_eqb (wakeups_consumed ws (schedule_sync_wakeups m j tip ts ws)) o
   | Shift oc iv served pre ws o => dres_eqb (list_eqb stx_eqb) (consumed ws (advance_overdue oc iv served pre ws)) o
+  | Rebuild oc iv cap nu63 funding tip pend ws ds o =>
+      outcome_eqb (pair_eqb zz_eqb oz_eq) unit_eqb (rebuild_schedule oc iv cap nu63 funding tip pend ws ds) o
   end.
 
 (** The property on the implementation's outcome. A [Panic] of a drawing function can only be
@@ -135,6 +138,8 @@ Definition prop_case (c : case) : bool :=
       | Panic => negb (is_some (first_infeasible ts))
       end
   | Shift _ iv served pre ws o => on_ok o (fun post k => shift_ok iv served pre post && (0 <=? k) && (k <=? Z.of_nat (length ws)))
+  | Rebuild _ iv cap nu63 funding tip pend ws ds o =>
+      match o with Ok row => rebuild_ok iv cap nu63 funding tip pend row | Err _ => true | Panic => true end
   end.
 
 (** Known-finding classes.
@@ -209,6 +214,15 @@ Definition tag_caseZ (c : case) : Z :=
           else if existsb (fun pq => negb (oz_eq (snd (fst pq)) (snd (snd pq))) &&
                                        negb (shift_unchanged_anchor (fst pq) (snd pq))) (combine pre post) then 67   (* a boundary was replaced *)
           else 68                                                                 (* redraw attempted, prior kept *)
+      end
+  | Rebuild _ iv cap nu63 funding tip pend ws ds o =>
+      match o with
+      | Panic => 99
+      | Err _ => 69
+      | Ok (sched, ex, _) =>
+          (* 71: the schedule crossed into the next expiry period past the target; 72: chained past a later pending transfer *)
+          if negb (ex =? expiry_spec (Z.min u32_max (tip + 1))) then 71
+          else if Z.min u32_max (tip + 1) <? fold_left Z.max pend 0 then 72 else 70
       end
   end.
 
